@@ -76,6 +76,39 @@ Theorem C38_ncdof_is_min :
 Proof. exact ncdof_is_min. Qed.
 Print Assumptions C38_ncdof_is_min.
 
+(* ---- the maps persist on Data: update_active_dofs first resets them over max(nv, nvmax_pad) tasks,
+        which clears EVERY entry (dof_cdof is nv wide, nv may exceed nvmax_pad), so the result does not
+        depend on the previous call and a tree that went to sleep loses its compacted ids ---- *)
+Theorem C38_reset_maps_full :
+  forall nv nvp dc0 cd0, 0 <= nv -> 0 <= nvp -> length dc0 = Z.to_nat nv -> length cd0 = Z.to_nat nvp ->
+  reset_maps (reset_dim nv nvp) nv nvp dc0 cd0 = (repeat (-1) (Z.to_nat nv), repeat (-1) (Z.to_nat nvp)).
+Proof. exact reset_maps_full. Qed.
+Print Assumptions C38_reset_maps_full.
+
+Theorem C38_update_active_dofs_stateless :
+  forall ntree adr num aw nvmax nv nvp ovf dc0 cd0, 0 <= nv -> 0 <= nvp ->
+  length dc0 = Z.to_nat nv -> length cd0 = Z.to_nat nvp ->
+  update_active_dofs (reset_dim nv nvp) ntree adr num aw nvmax nv nvp ovf dc0 cd0
+  = compact_dofs ntree adr num aw nvmax nv nvp ovf.
+Proof. exact update_active_dofs_stateless. Qed.
+Print Assumptions C38_update_active_dofs_stateless.
+
+Theorem C38_sleeping_dofs_unmapped :
+  forall ntree adr num aw nvmax nv nvp ovf dc0 cd0,
+  0 <= nvmax <= nvp -> 0 <= nv -> wf_trees ntree nv adr num ->
+  length dc0 = Z.to_nat nv -> length cd0 = Z.to_nat nvp ->
+  Z.of_nat (length (awake_dofs ntree adr num aw)) <= nvmax ->
+  forall d, 0 <= d < nv -> ~ awake_dof ntree adr num aw d ->
+  cget (dof_cdof (update_active_dofs (reset_dim nv nvp) ntree adr num aw nvmax nv nvp ovf dc0 cd0)) d = -1.
+Proof. exact sleeping_dofs_unmapped. Qed.
+Print Assumptions C38_sleeping_dofs_unmapped.
+
+(* regression witness: a reset launched over nvmax_pad tasks only (nv = 20 > 16) keeps a stale entry *)
+Example C38_reset_over_nvmax_pad_only_keeps_stale_entry :
+  cget (dof_cdof (update_active_dofs 16 2 [0; 14] [14; 6] [0; 0] 12 20 16 0 (repeat 5 20) (repeat 7 16))) 18 = 5
+  /\ cget (dof_cdof (update_active_dofs (reset_dim 20 16) 2 [0; 14] [14; 6] [0; 0] 12 20 16 0 (repeat 5 20) (repeat 7 16))) 18 = -1.
+Proof. exact reset_over_nvmax_pad_only_keeps_stale_entry. Qed.
+
 (* ---- every tree awake, trees tile [0, nv), nv <= nvmax: both maps are the identity ---- *)
 Theorem C38_all_active_identity :
   forall ntree nv nvmax nvp ovf adr num aw,
